@@ -1,6 +1,8 @@
 #!/bin/bash
 # usage: determinism.sh <target> <runs> [procs]  -- run the same seeds in several concurrent processes and diff the logs
 T=$1; N=$2; P=${3:-4}
+git -C /repo diff --quiet || { echo "determinism.sh: /repo has uncommitted changes"; exit 2; }
+(cd /verif/sim && CARGO_NET_OFFLINE=true cargo build --offline --profile sim >/dev/null 2>&1) || { echo "determinism.sh: build failed"; exit 2; }
 D=$(mktemp -d)
 for i in $(seq 1 $P); do ( /verif/target/sim/hdsim determinism $T --runs $N > $D/$i.log 2>$D/$i.err ) & done
 wait
